@@ -13,6 +13,8 @@ HEX_UNIVERSES = {
     "HS": ["1001", "1002", "2001", "2002", "10", ""],
     "HW": ["", "00", "10", "70", "80", "e0", "f0"],
     "HS4": ["1001", "1002", "2001", "2002"],
+    # keys of very different lengths in one trie, two of them longer than 32 bytes
+    "HV": ["", "11" * 20, "11" * 33 + "12", "11" * 33 + "13"],
     "HW4": ["", "00", "70", "f0"],
     "H4b": ["12", "1234", "1235", "1245"],
     "HL": [
@@ -25,7 +27,9 @@ HEX_UNIVERSES = {
 HEX_PROBES = ["10", "1230", "123450", "12345678", "1244ff", "20", "01", "ff", "12", "1245", "1"]
 
 # value name -> length; the content is the seed's filler byte repeated
-VALUE_LEN = {"S": 1, "T26": 26, "T27": 27, "T28": 28, "T29": 29, "T30": 30, "L": 33, "X": 60, "M": 2}
+VALUE_LEN = {"S": 1, "T26": 26, "T27": 27, "T28": 28, "T29": 29, "T30": 30, "L": 33, "X": 60, "M": 2, "V32": 32, "V55": 55, "V56": 56}
+# literal values whose bytes matter to RLP (single byte below / at 0x80) -- not relabelled by the seed
+VALUE_LITERAL = {"Z00": b"\x00", "B7f": b"\x7f", "B80": b"\x80", "Bff": b"\xff"}
 
 
 class Labels:
@@ -64,6 +68,8 @@ class Labels:
     def value(self, name):
         if name == "":
             return b""
+        if name in VALUE_LITERAL:
+            return VALUE_LITERAL[name]
         return bytes([self.filler]) * VALUE_LEN[name]
 
     def keys(self, universe):
